@@ -259,9 +259,9 @@ package stdlib
 //@   requires (and (wf_ty retType) (or (is_list_ty t) (is_tuple_ty t)))
 //@   ensures[C11] ok: (=> (= result.1 nil.Any) (wf_deep result.0))
 //@   ensures[C13] domain: (=> (is_known c) (= (= result.1 nil.Any) (and (= (bf.acc64 (bf_of k)) 0) (> n 0))))
-//@   ensures[C13] value: (=> (and (is_known c) (= result.1 nil.Any)) (= (inner_v result.0) (strip (pl_seq_at c (mod ix n)))))
-//@   ensures[C13] elty_list: (=> (and (is_known c) (= result.1 nil.Any) (is_list_ty t)) (= (vty result.0) (elem_ty t)))
-//@   ensures[C13] elty_tuple: (=> (and (is_known c) (= result.1 nil.Any) (is_tuple_ty t)) (= (vty result.0) (tuple_at t (mod ix (tuple_len t)))))
+//@   ensures[C13,@lean] value: (=> (and (is_known c) (= result.1 nil.Any)) (= (inner_v result.0) (strip (pl_seq_at c (mod ix n)))))
+//@   ensures[C13,@lean] elty_list: (=> (and (is_known c) (= result.1 nil.Any) (is_list_ty t)) (= (vty result.0) (elem_ty t)))
+//@   ensures[C13,@lean] elty_tuple: (=> (and (is_known c) (= result.1 nil.Any) (is_tuple_ty t)) (= (vty result.0) (tuple_at t (mod ix (tuple_len t)))))
 //@   ensures[C13] marks: (=> (and (is_known c) (= result.1 nil.Any)) (forall ((m Any)) (! (=> (select (marks_of (val_at args 0)) m) (select (marks_of result.0) m)) :pattern ((select (marks_of result.0) m)))))
 //
 // slice(list, start, end): the elements start..end-1 in order; fails exactly when an index is not a whole
